@@ -46,6 +46,15 @@ class TypeNormalizer:
         elif t in UnionTypes:
             return type[t]
 
+        handler = getattr(t, "_handler", None)
+        if isinstance(t, MetaMC) and isinstance(handler, (_Union, _Intersection)):
+            # The members of Union[...] / Intersection[...] / A & B are
+            # annotations too (Literal[...], dict[str, int], strings...)
+            members = tuple(self(m, fn) for m in handler.types)
+            if any(a is not b for a, b in zip(members, handler.types)):
+                return MetaMC(type(handler).__name__, type(handler)(*members))
+            return t
+
         origin = getattr(t, "__origin__", None)
         if UnionType and isinstance(t, UnionType):
             return self(t.__args__, fn)
@@ -384,8 +393,7 @@ def _member_code(t):
     return cg
 
 
-@parametrized_class_check
-class Union:
+class _Union:
     def __init__(self, *types):
         self.__args__ = self.types = types
 
@@ -436,8 +444,11 @@ class Union:
         return " | ".join(map(clsstring, self.__args__))
 
 
-@parametrized_class_check
-class Intersection:
+_Union.__name__ = _Union.__qualname__ = "Union"
+Union = parametrized_class_check(_Union)
+
+
+class _Intersection:
     def __init__(self, *types):
         self.__args__ = self.types = types
 
@@ -486,6 +497,10 @@ class Intersection:
 
     def __str__(self):
         return " & ".join(map(clsstring, self.__args__))
+
+
+_Intersection.__name__ = _Intersection.__qualname__ = "Intersection"
+Intersection = parametrized_class_check(_Intersection)
 
 
 @parametrized_class_check
